@@ -529,8 +529,7 @@ def configs():
                      ]))
     cs.append(Config("MapBins(double)", "MapBins", lambda: lena.structures.MapBins(lambda x: x * 2),
                      [("hist_num", lambda k: hist_num(k)), ("hist_num_ctx", lambda k: (hist_num(k), {"tag": k}))],
-                     generic() + [("graph", "lookalike", lambda k: graph([[0, 1], [k, k + 1]])),
-                                  ("hist_lists_of_numbers", "lookalike", lambda k: histogram([0, 1, 2], [[k, 2], [3, 4]]))]))
+                     generic() + [("graph", "lookalike", lambda k: graph([[0, 1], [k, k + 1]]))]))
     cs.append(Config("MapBins(stateful,keep_ctx)", "MapBins",
                      lambda: lena.structures.MapBins(CountingCall(), select_bins=int, drop_bins_context=False),
                      [("hist_num", lambda k: hist_num(k)), ("hist_num_ctx", lambda k: (hist_num(k), {"tag": k}))],
